@@ -21,12 +21,15 @@ import (
 	"math/rand"
 	"reflect"
 	"strings"
+	"time"
 
 	godid "github.com/nuts-foundation/go-did"
 	"github.com/lestrrat-go/jwx/v2/jwk"
 	"github.com/nuts-foundation/go-did/did"
 	"github.com/nuts-foundation/nuts-node/crypto/hash"
+	"github.com/nuts-foundation/nuts-node/storage/orm"
 	"github.com/nuts-foundation/nuts-node/vdr/didjwk"
+	"github.com/nuts-foundation/nuts-node/vdr/didsubject"
 	"github.com/nuts-foundation/nuts-node/vdr/resolver"
 )
 
@@ -379,6 +382,90 @@ func wChainOps(r *rand.Rand, n int) []wOp {
 			op.Regs = append(op.Regs, wReg{M: whx(methods[r.Intn(len(methods))]), Out: []string{"ok", "ok", "nf", "deact", "err"}[r.Intn(5)]})
 		}
 		ops = append(ops, op)
+	}
+	return ops
+}
+
+// ---------- resolution at a point in time: didsubject.Resolver with ResolveMetadata.ResolveTime on the node's SQL store
+
+type wVer struct {
+	A bool  `json:"a"`
+	T int64 `json:"t"` // updated_at, seconds after the base
+}
+
+var wRTBase = time.Now().Unix() - 5000000
+var wRTSeen = map[*wNode]map[string]bool{}
+
+func wExecRTime(n *wNode, op *wOp) string {
+	id := did.DID{Method: "web", ID: wunhx(op.ID)}
+	if wRTSeen[n] == nil {
+		wRTSeen[n] = map[string]bool{}
+	}
+	if !wRTSeen[n][id.String()] {
+		wRTSeen[n][id.String()] = true
+		for i, v := range op.Vers {
+			var vms []orm.VerificationMethod
+			if v.A {
+				vms = []orm.VerificationMethod{{ID: fmt.Sprintf("%s#k%d", id.String(), i), KeyTypes: 31, Data: []byte("{}")}}
+			}
+			ver, err := n.db.CreateOrUpdate(orm.DID{ID: id.String(), Subject: "s-" + id.String()}, vms, nil)
+			if err != nil {
+				panic("sql create: " + err.Error())
+			}
+			if err := n.gdb.Model(&orm.DidDocument{}).Where("id = ?", ver.ID).Update("updated_at", wRTBase+v.T).Error; err != nil {
+				panic("sql stamp: " + err.Error())
+			}
+		}
+	}
+	var md *resolver.ResolveMetadata
+	if op.At != nil {
+		ts := time.Unix(wRTBase+*op.At, 0)
+		md = &resolver.ResolveMetadata{ResolveTime: &ts, AllowDeactivated: op.Allow}
+	} else if op.Allow {
+		md = &resolver.ResolveMetadata{AllowDeactivated: true}
+	}
+	doc, meta, err := didsubject.Resolver{DB: n.gdb}.Resolve(id, md)
+	if err != nil {
+		return "rtime err:" + wErr(err)
+	}
+	return fmt.Sprintf("rtime ok:%s:%d:%v", whx(doc.ID.String()), meta.Updated.Unix()-wRTBase, meta.Deactivated)
+}
+
+func wRTimeOps(r *rand.Rand, n int, node int) []wOp {
+	var ops []wOp
+	for k := 0; k < n; k++ {
+		var vers []wVer
+		t := int64(r.Intn(50))
+		for l := 1 + r.Intn(4); l > 0; l-- {
+			vers = append(vers, wVer{A: r.Intn(3) != 0, T: t})
+			switch r.Intn(6) {
+			case 0: // same second
+			case 1: // a later version stamped EARLIER (clock of another instance behind)
+				t -= int64(1 + r.Intn(20))
+				if t < 0 {
+					t = 0
+				}
+			default:
+				t += int64(1 + r.Intn(100))
+			}
+		}
+		id := fmt.Sprintf("rt%d-%d.example:T", node, k)
+		for q := 0; q < 3; q++ {
+			op := wOp{Op: "rtime", ID: whx(id), Vers: vers, Allow: r.Intn(3) == 0, Tag: "web-resolve-time"}
+			switch r.Intn(5) {
+			case 0: // no resolve time: latest
+			case 1:
+				at := vers[r.Intn(len(vers))].T // exactly the second of a version
+				op.At = &at
+			case 2:
+				at := vers[r.Intn(len(vers))].T - 1
+				op.At = &at
+			default:
+				at := int64(r.Intn(int(t) + 60))
+				op.At = &at
+			}
+			ops = append(ops, op)
+		}
 	}
 	return ops
 }
